@@ -65,7 +65,8 @@ def main():
             p = subprocess.run(["patch", "-p1", "-s", "-i", os.path.join(d, "patch.diff")], cwd=root, capture_output=True, text=True)
             if p.returncode != 0:
                 print(sid, "patch does not apply:", p.stdout[-300:], p.stderr[-300:])
-                results.append({"id": sid, "property": prop, "applies": False})
+                # a change that a later repair of /repo made impossible to apply (and pointless) is kept for the record
+                results.append({"id": sid, "property": prop, "applies": False, "neutralised_on_current_tree": meta.get("neutralised_by") is not None})
                 continue
             demo_with = demo_without = None
             if not args.no_demo:
